@@ -304,6 +304,11 @@ impl ShmWrite for ShmWriter {
             };
             generation.store(gen, atomic::Ordering::Release);
 
+            // A release store only orders the accesses that precede it. Without this fence the
+            // plain stores to the record below may become visible before the odd generation, and
+            // a reader could accept a partly updated record under an unchanged even generation.
+            atomic::fence(atomic::Ordering::Release);
+
             #[cfg(not(feature = "verif"))]
             self.ceb.write(*ceb);
             #[cfg(feature = "verif")]
